@@ -1,2 +1,227 @@
--- stub: replaced by the C13 driver
-def main : IO Unit := pure ()
+/-
+  Driver.C13 — runs the C13 CodeModel (Golib.Lists.*) on request lines.
+
+  element types  i (IntList)  l (LongList)  f (FloatList, bit pattern)  d (DoubleList, bit pattern)
+                 s (StringList, `x` followed by the hex of the bytes; the empty string is `x`)
+  lists are comma separated, the empty list is `-`.
+
+    L <t> <init> <ops>          history on one typed list.  init: nil | cap:<n>
+         ops (`;` separated):   a:<v>  A:<list>  B:<pad>:<list>  S  s:<i>:<v>  g:<i>  n  t
+         answer (`;` separated): u | p | v<val> | n<k> | t<list>
+    W <t> <list>                wire form of the list holding these elements        → hex
+    R <t> <hex>                 Read into NewXListDefault()                          → ok <list> <rest length> | fail
+    F <t> <list> <idx list>     Filtering                                            → t<list> | p
+    O <pt> <asc> <ct> <casc> <vals> <cvals> <perm>
+                                is <perm> a permutation of the indices that is sorted w.r.t. the
+                                model's comparator closure?  ct = `-`: Sorting(asc) (no child);
+                                ct = I: int child compared through float64 (the code before fix-D43)
+                                                                                     → ok | bad-perm | bad-order
+    M <pt> <asc> <ct> <casc> <vals> <cvals>
+                                the model's own Sorting/SortingAnyList (sort := merge sort)  → <perm>
+    K <ops>                     history on a LinkedList
+         ops: af:<v> al:<v> ad:<v> rf rl rm:<k> pb:<k>:<v> cl t n gf gl
+         answer: u | p | v<val> | nil | n<k> | t<list>
+-/
+import Golib.Lists.Run
+import Golib.Lists.Wire
+import Golib.Lists.Sort
+import Golib.Lists.Linked
+import Driver.Common
+
+open Drv Lists
+
+/-- one value of any element type -/
+inductive V where
+  | i (v : Int)
+  | b (bits : Nat)
+  | s (bs : Bytes)
+  deriving Inhabited
+
+def zeroOf (t : String) : V :=
+  match t with
+  | "i" | "l" => .i 0
+  | "f" | "d" => .b 0
+  | _ => .s []
+
+def parseV (t : String) (s : String) : Option V :=
+  match t with
+  | "i" | "l" => (parseInt s).map .i
+  | "f" | "d" => (parseNat s).map .b
+  | _ => if s.startsWith "x" then (ofHexAux (s.toList.drop 1) []).map .s else none
+
+def showV : V → String
+  | .i v => toString v
+  | .b n => toString n
+  | .s bs => "x" ++ (if bs.isEmpty then "" else hexOf bs)
+
+def parseVs (t : String) (s : String) : Option (List V) := parseList (parseV t) s
+
+def isType (t : String) : Bool := t == "i" || t == "l" || t == "f" || t == "d" || t == "s"
+
+/-- element codec of list type `t`, lifted to `V` -/
+def codecOf (t : String) : V → Bytes := fun v =>
+  match t, v with
+  | "i", .i x | "l", .i x => decimalCodec.enc x
+  | "f", .b x => floatCodec.enc x
+  | "d", .b x => doubleCodec.enc x
+  | _, .s x => textCodec.enc x
+  | _, _ => []
+
+def decOf (t : String) : P V :=
+  match t with
+  | "i" | "l" => P.map V.i decimalCodec.dec
+  | "f" => P.map V.b floatCodec.dec
+  | "d" => P.map V.b doubleCodec.dec
+  | _ => P.map V.s textCodec.dec
+
+/-- the wire functions take a `Codec`; the driver only needs `enc`/`dec`, so the proof fields are
+    filled for the trivially-false well-formedness predicate (nothing is claimed through it) -/
+def vCodec (t : String) : Codec V :=
+  { enc := codecOf t, dec := decOf t, wf := fun _ => False, rt := fun _ _ h => h.elim }
+
+def leOf (t : String) : V → V → Bool := fun a b =>
+  match t, a, b with
+  | "i", .i x, .i y | "l", .i x, .i y => Sort.intLe x y
+  | "I", .i x, .i y => Sort.intLeViaDouble x y
+  | "f", .b x, .b y => Sort.floatLe 31 x y
+  | "d", .b x, .b y => Sort.floatLe 63 x y
+  | "s", .s x, .s y => Sort.lexLe x y
+  | _, _, _ => true
+
+/-! ### typed-list histories -/
+
+def parseOp (t : String) (s : String) : Option (Op V) :=
+  match s.splitOn ":" with
+  | ["a", v] => (parseV t v).map .add
+  | ["A", vs] => (parseVs t vs).map .addAllArray
+  | ["B", pad, vs] => match parseNat pad, parseVs t vs with
+    | some p, some xs => some (.addAll xs p)
+    | _, _ => none
+  | ["S"] => some .addAllSelf
+  | ["s", i, v] => match parseInt i, parseV t v with
+    | some i, some v => some (.set i v)
+    | _, _ => none
+  | ["g", i] => (parseInt i).map .get
+  | ["n"] => some .size
+  | ["t"] => some .toArray
+  | _ => none
+
+def showOut : Out V → String
+  | .unit => "u"
+  | .panic => "p"
+  | .val v => "v" ++ showV v
+  | .size n => "n" ++ toString n
+  | .arr xs => "t" ++ listOf showV xs
+
+def parseInit (t : String) (s : String) : Option (TL V) :=
+  if s == "nil" then some TL.zeroValue
+  else match s.splitOn ":" with
+    | ["cap", n] => (parseNat n).map (TL.mk' (zeroOf t))
+    | _ => none
+
+def semi (xs : List String) : String := if xs.isEmpty then "-" else ";".intercalate xs
+
+def doL (t init ops : String) : String :=
+  match parseInit t init, (if ops == "-" then some [] else (ops.splitOn ";").mapM (parseOp t)) with
+  | some l, some ops =>
+    let r := Code.runTR Growth.go (zeroOf t) ops l []
+    semi (r.1.map showOut)
+  | _, _ => "bad-op"
+
+def listOfVals (t : String) (vs : List V) : TL V :=
+  match TL.addAllArray Growth.go (zeroOf t) vs (TL.mk' (zeroOf t) 0) with
+  | some l => l
+  | none => TL.mk' (zeroOf t) 0
+
+/-! ### sorting -/
+
+def parseBool (s : String) : Option Bool :=
+  if s == "1" then some true else if s == "0" then some false else none
+
+def lessOf (pt : String) (asc : Bool) (ct : String) (casc : Bool) (vals cvals : Array V) : Nat → Nat → Bool :=
+  let v := fun i => vals.getD i default
+  let c := fun i => cvals.getD i default
+  if ct == "-" then Sort.lessIdx1 (leOf pt) asc v
+  else Sort.lessIdx2 (leOf pt) asc v (leOf ct) c casc
+
+def isPermOfRange (perm : List Nat) (n : Nat) : Bool :=
+  perm.mergeSort (fun a b => decide (a ≤ b)) == List.range n
+
+/-! ### linked list -/
+
+def parseK (s : String) : Option Linked.Op :=
+  match s.splitOn ":" with
+  | ["af", v] => (parseInt v).map .addFirst
+  | ["al", v] => (parseInt v).map .addLast
+  | ["ad", v] => (parseInt v).map .add
+  | ["rf"] => some .removeFirst
+  | ["rl"] => some .removeLast
+  | ["rm", k] => (parseNat k).map .removeAt
+  | ["pb", k, v] => match parseNat k, parseInt v with
+    | some k, some v => some (.putBefore k v)
+    | _, _ => none
+  | ["cl"] => some .clear
+  | ["t"] => some .toArray
+  | ["n"] => some .size
+  | ["gf"] => some .first
+  | ["gl"] => some .last
+  | _ => none
+
+def showK : Linked.Out → String
+  | .unit => "u"
+  | .panic => "p"
+  | .val v => "v" ++ toString v
+  | .none_ => "nil"
+  | .size n => "n" ++ toString n
+  | .arr xs => "t" ++ listOf toString xs
+
+def answer (line : String) : String :=
+  match line.splitOn " " with
+  | ["L", t, init, ops] => if isType t then doL t init ops else "bad-op"
+  | ["W", t, vs] =>
+    match isType t, parseVs t vs with
+    | true, some vs => hexOf (write (vCodec t) (listOfVals t vs))
+    | _, _ => "bad-op"
+  | ["R", t, hex] =>
+    match isType t, ofHex hex with
+    | true, some bs =>
+      match P.run (read Growth.go (vCodec t) (zeroOf t) (TL.mk' (zeroOf t) 0)) bs with
+      | some (l, rest) => s!"ok {listOf showV (TL.toArray l)} {rest.length}"
+      | none => "fail"
+    | _, _ => "bad-op"
+  | ["F", t, vs, idx] =>
+    match isType t, parseVs t vs, parseList parseInt idx with
+    | true, some vs, some idx =>
+      match TL.filtering Growth.go (zeroOf t) (listOfVals t vs) idx with
+      | some out => "t" ++ listOf showV (TL.toArray out)
+      | none => "p"
+    | _, _, _ => "bad-op"
+  | ["O", pt, asc, ct, casc, vs, cvs, perm] =>
+    match parseBool asc, parseBool casc, parseVs pt vs,
+          (if ct == "-" then some [] else parseVs (if ct == "I" then "i" else ct) cvs),
+          parseList parseNat perm with
+    | some asc, some casc, some vs, some cvs, some perm =>
+      if !isPermOfRange perm vs.length then "bad-perm"
+      else if Sort.chainB (lessOf pt asc ct casc vs.toArray cvs.toArray) perm then "ok"
+      else "bad-order"
+    | _, _, _, _, _ => "bad-op"
+  | ["M", pt, asc, ct, casc, vs, cvs] =>
+    match parseBool asc, parseBool casc, parseVs pt vs,
+          (if ct == "-" then some [] else parseVs (if ct == "I" then "i" else ct) cvs) with
+    | some asc, some casc, some vs, some cvs =>
+      let va := vs.toArray
+      let ca := cvs.toArray
+      let v := fun i => va.getD i default
+      let c := fun i => ca.getD i default
+      let msort : Sort.SortFn := fun less xs => xs.mergeSort less
+      listOf toString
+        (if ct == "-" then Sort.sorting msort (leOf pt) asc v vs.length
+         else Sort.sortingAnyList msort (leOf pt) asc v (leOf ct) c casc vs.length)
+    | _, _, _, _ => "bad-op"
+  | ["K", ops] =>
+    match (if ops == "-" then some [] else (ops.splitOn ";").mapM parseK) with
+    | some ops => semi ((Linked.LL.runTR ops Linked.LL.empty []).1.map showK)
+    | none => "bad-op"
+  | _ => "bad-op"
+
+def main : IO Unit := statelessLoop answer
